@@ -289,7 +289,9 @@ def run(ctx: Ctx):
                             while x_.op == "meth" and x_.args[1] in ("float", "to", "long", "int", "double"):
                                 x_ = nf.strip(x_.args[0], True)
                             c_ = nf.cmpnf(x_)
-                            ind = c_ is not None and ((c_[1] == ">0" and c_[0].const_term() == 0) or (c_[1] == ">=0" and c_[0].const_term() == -1))
+                            # a POSITIVE count: the counted quantity enters the comparison with a + sign (`count < 0` has the same shape and is never true)
+                            pos_ = c_ is not None and any(m__ for m__ in c_[0].terms) and all(cf_ > 0 for m__, cf_ in c_[0].terms.items() if m__)
+                            ind = c_ is not None and pos_ and ((c_[1] == ">0" and c_[0].const_term() == 0) or (c_[1] == ">=0" and c_[0].const_term() == -1))
                         okw = is_w and ind
                         whyw = f"weights' = weights - weights * [count of chosen sets containing the item > 0]: weights cell {is_w}, indicator of a positive count {ind}"
             ctx.ob("C08.d", "MCPEnv._step:weights:uncovered-only", okw, sl.where, whyw, construct=f"{sl.fi.qualname}:weights:formula")
